@@ -57,9 +57,9 @@ hash_contraction = Contract(
         "len(result[0]) == len(inputs)",
         "forall(0, len(inputs), lambda i: len(result[0][i]) == len(inputs[i]) and forall(0, len(inputs[i]), lambda j: result[0][i][j] == inputs[i][j]))",
         "len(result[1]) == len(output) and forall(0, len(output), lambda j: result[1][j] == output[j])",
-        # every (label, size) pair, in the dict's own order
-        "len(result[2]) == len(size_dict)",
-        "forall(0, len(size_dict), lambda p: result[2][p][0] == list(size_dict)[p] and result[2][p][1] == size_dict[list(size_dict)[p]])",
+        # exactly the (label, size) pairs of the dict (in whatever order: the assignment is what matters)
+        "forall(0, len(result[2]), lambda p: result[2][p][0] in size_dict and size_dict[result[2][p][0]] == result[2][p][1])",
+        "forall(0, len(size_dict), lambda q: exists(0, len(result[2]), lambda p: result[2][p][0] == list(size_dict)[q]))",
     ],
     ensures_t1=["result[3] == optimize", "result[4] == kwargs"],
     ensures_rt=["result[3] == hash_prepare_optimize(optimize)", "dict(result[4]) == kwargs"],
